@@ -121,9 +121,11 @@ def keyify(e):
 
 
 def declared_edges(content, fmt, cfg, ignore=()):
-    """edges the format is expected to carry for this mesh (vocabulary 'declared/hard edges' for obj/medit,
-    'all edges' for geogram).  Returns (lower, upper): every edge of `lower` must come back, nothing outside
-    `upper` may come back (they differ only where the statement leaves a choice: faces ignored at save time)."""
+    """edges that must come back (vocabulary 'declared/hard edges' for obj/medit, 'all edges' for geogram).
+    What is written with ignore_elements=K is the restriction of the mesh to the kept element kinds, in the
+    format's vocabulary.  The edges completed from faces may be left out ONLY when the reader can complete them
+    again, i.e. when the file itself carries faces (or cells, in a format that expresses cells) of the mesh;
+    otherwise (wireframe export) every edge of the mesh has to be written.  Returns (lower, upper)."""
     E, nd = content["E"], content["nd"]
     if "edges" in ignore or fmt in ("off", "tet", "xyz", "stl"):
         return [], []
@@ -131,11 +133,12 @@ def declared_edges(content, fmt, cfg, ignore=()):
         return E, E
     if fmt == "obj" and not cfg.get("export_edges_in_obj", True):
         return [], []
-    has_faces = bool(content["F"]) and "faces" not in ignore
     if not content["F"] or not cfg.get("complete_edges_from_faces", True):
         return E, E          # no completion happened in this mesh: every edge is a declared one
-    if not has_faces:
-        return E[:nd], E     # faces dropped at save time: declared edges must, completed edges may be written
+    faces_in_file = bool(content["F"]) and "faces" not in ignore
+    cells_in_file = bool(content["C"]) and "cells" not in ignore and fmt == "mesh"
+    if not (faces_in_file or cells_in_file):
+        return E, E          # wireframe: nothing in the file lets a reader rebuild the completed edges
     return E[:nd], E[:nd]
 
 
